@@ -1321,7 +1321,8 @@ static std::vector<StrItem> csv_items()
     { "uri-v4", "dns://10.0.0.5", 0, "10.0.0.5:53" },
     { "uri-v4-port", "dns://10.0.0.6:55", 0, "10.0.0.6:55" },
     { "uri-v6-tcpport", "dns://[2001:db8::5]:55?tcpport=56", 0, "dns://[2001:db8::5]:55?tcpport=56" },
-    { "uri-ll", "dns://[fe80::5%25eth0]:53", 0, "[fe80::5]:53%eth0" },
+    { "uri-ll", "dns://[fe80::5%eth0]:53", 0, "[fe80::5]:53%eth0" }, // the documented form carries the interface unescaped
+    { "uri-ll-tcpport", "dns://[fe80::7%eth0]:53?tcpport=54", 0, "dns://[fe80::7%eth0]:53?tcpport=54" },
     { "uri-tcpport-only", "dns://10.0.0.7?tcpport=5300", 0, "dns://10.0.0.7:53?tcpport=5300" },
     { "v4-again", "10.0.0.1:53", 0, "10.0.0.1:53" }, // duplicate of "v4" in another spelling
     { "ll-unknown-iface", "[fe80::9]:53%nosuch0", 1, "" }, // interface cannot be validated: silently ignored
@@ -1347,6 +1348,7 @@ static std::vector<StrItem> csv_items()
     { "uri-tcpport-99999", "dns://10.0.0.11:53?tcpport=99999", 3, "" },
     { "uri-unknown-key", "dns://10.0.0.12:53?bogus=1", 3, "" },
     { "iface-on-global", "[2001:db8::7]:53%eth0", 3, "" }, // "should not otherwise be used"
+    { "uri-ll-pct25", "dns://[fe80::8%25eth0]:53", 3, "" },  // RFC 6874 escaping of the zone id: not what ares_set_servers_csv.3 shows
   };
 }
 
